@@ -2,7 +2,24 @@
 from .common import *
 from . import gen_tree
 
+def gen_rhist_many(rng):
+    """many replacements sharing few keys, pushed out of key order (tie-breaking by insertion order
+    only shows with more elements than a sort's small-input path)"""
+    inner = ('raws', 'abcdefghij')
+    keys = rng.sample([(0, 0), (2, 2), (2, 4), (5, 5), (7, 7), (7, 9), (10, 10), (12, 12)], rng.randrange(2, 5))
+    n = rng.randrange(33, 80)
+    ops = []
+    for i in range(n):
+        s, e = rng.choice(keys)
+        ops.append(('mut', s, e, '<%d>' % i, None, rng.choice([1, 1, 1, 0, 2])))
+        if rng.random() < 0.03:
+            ops.append(('obs', rng.randrange(0, 8)))
+    ops.append(('obs', rng.choice([0, 3, 6])))
+    return Case('rhist', {'inner': inner, 'ops': ops}, {'nontrivial', 'many_equal_keys', 'equal_keys'})
+
 def gen_rhist_case(rng, exhaustive=None):
+    if rng.random() < 0.12:
+        return gen_rhist_many(rng)
     multibyte = rng.random() < 0.5
     g = gen_tree.Gen(rng, gen_tree.Cfg(ascii=not multibyte, sms=0.0, cached=0.0, replace=0.0, bufs=0.1, invalid_utf8=0.2))
     inner = g.leaf() if rng.random() < 0.7 else g.node(1)
